@@ -37,11 +37,13 @@ type BoxStream = Pin<Box<dyn tokio_stream::Stream<Item = Result<Vec<u8>, Status>
 #[tonic::async_trait]
 impl Svc for H {
     async fn unary(&self, r: Request<Vec<u8>>) -> Result<Response<Vec<u8>>, Status> {
-        // Request::peer_certs() only knows TCP / UDS connect infos; over the in-memory pipe the same data is in TlsConnectInfo<()>
-        let certs = r.peer_certs().or_else(|| r.extensions().get::<tonic::transport::server::TlsConnectInfo<()>>().and_then(|i| i.peer_certs()));
+        // two accessors of the same thing: Request::peer_certs() and the TlsConnectInfo extension
+        let via_ext = r.extensions().get::<tonic::transport::server::TlsConnectInfo<tonic::transport::server::TcpConnectInfo>>().and_then(|i| i.peer_certs());
+        let ext_n = via_ext.as_ref().map(|c| c.len() as i64).unwrap_or(-1);
+        let certs = r.peer_certs();
         // one small digest per certificate shown to the handler, in order (the driver computes the same digests from the PEM files)
         let digests: Vec<u64> = certs.as_ref().map(|c| c.iter().map(|d| d.as_ref().iter().enumerate().fold(0u64, |a, (i, b)| (a + (i as u64 % 251 + 1) * *b as u64) % 1_000_003)).collect()).unwrap_or_default();
-        self.log.ev(json!({"e":"handler","peer_certs": certs.as_ref().map(|c| c.len() as i64).unwrap_or(-1), "peer_digests": digests}));
+        self.log.ev(json!({"e":"handler","peer_certs": certs.as_ref().map(|c| c.len() as i64).unwrap_or(-1), "ext_certs": ext_n, "peer_digests": digests}));
         Ok(Response::new(vec![1]))
     }
     async fn cstream(&self, _r: Request<Streaming<Vec<u8>>>) -> Result<Response<Vec<u8>>, Status> { Err(Status::unimplemented("")) }
